@@ -12,7 +12,7 @@
    that reordering independent statements of the source does not break them. *)
 From Coq Require Import String ZArith List Bool Lia ZifyBool.
 From Soc Require Import Lib.Bits Lib.Res Lib.PyVal.
-From Soc Require Model.Sram Proofs.Sram.
+From Soc Require Model.Sram Proofs.Sram Model.WbCsrBridge Model.Actions.
 From SocGen Require Import PeriphGen.
 Import ListNotations.
 Open Scope Z_scope.
@@ -477,4 +477,458 @@ Proof.
 Qed.
 Print Assumptions tie_sram_ctor.
 
+(* the `init` property pair: the setter stores into the MemoryData object held in self._mem_data, the getter reads
+   the same attribute of the same object back *)
+Theorem tie_sram_init_property : forall t n v,
+  let md := YObj "MemoryData" n in
+  last_set t slf "_mem_data" = Some md ->
+  run_comp (gen_sram_WishboneSRAM_init_set sramW t slf v) = Ok (YNone, EvSet md "init" v :: t) /\
+  run_comp (gen_sram_WishboneSRAM_init_get sramW (EvSet md "init" v :: t) slf) = Ok (v, EvSet md "init" v :: t).
+Proof.
+  intros t n v md H. subst md.
+  split.
+  - unfold gen_sram_WishboneSRAM_init_set, fset. cbn. unfold get_plain. rewrite H. reflexivity.
+  - unfold gen_sram_WishboneSRAM_init_get. cbn. unfold get_plain. cbn. rewrite H. cbn. unfold get_plain. cbn.
+    rewrite Nat.eqb_refl. reflexivity.
+Qed.
+Print Assumptions tie_sram_init_property.
+
 End SramTie.
+
+(* ================================================================ Part 3: WishboneCSRBridge *)
+
+Module WbCsrTie.
+Module B := Soc.Model.WbCsrBridge.
+
+(* the constructor's first argument: an object with attributes addr_width = caw, data_width = cdw and a memory
+   map; `flp` says whether it is a wiring.FlippedInterface, `ifc` whether what flipped() gives back (or the object
+   itself, when it is not flipped) is a csr.Interface *)
+Definition bus : pv := YObj "arg:csr_bus" 0.
+Definition bus_map : pv := YObj "arg:csr_bus.memory_map" 0.
+
+Section World.
+Variables (caw cdw : Z) (flp ifc : bool).
+
+(* MemoryMap.add_window(window, name=) of the CSR bus's map into the fresh map `mm`: both have the geometry of the
+   csr.Interface (its memory_map setter guarantees that, csr/bus.py), so the window is placed at [0, 2**addr_width)
+   with ratio 1; any other geometry of `mm` does not fit: ValueError (memory.py add_window; the general case is
+   C02's) *)
+Definition spec_add_window (t : trace) (mm : pv) (args : list pv) : comp pv :=
+  match args, kw_get "addr_width" (kw_of t mm), kw_get "data_width" (kw_of t mm) with
+  | [w], Some (YInt aw), Some (YInt dw) =>
+      if ref_eqb w bus_map then
+        Branch (aw =? caw) (Branch (dw =? cdw) (Ret (YTuple [YInt 0; YInt (2 ^ aw); YInt 1])) (Raise ValueError))
+               (Raise ValueError)
+      else Raise OtherError
+  | _, _, _ => Raise OtherError
+  end.
+
+Definition wb_call (t : trace) (f : pv) (args : list pv) (kw : list (string * pv)) : comp pv :=
+  if is_glob f "flipped" then Ret (YCon "flipped" args [])
+  else if is_glob f "wishbone.Signature" then spec_wb_signature t kw
+  else if is_glob f "MemoryMap" then spec_memory_map t kw
+  else match super_init f with
+  | Some _ => Ret YNone                                  (* wiring.Component.__init__({"wb_bus": In(sig)}) *)
+  | None =>
+  match meth_recv f "add_window" with
+  | Some mm => spec_add_window t mm args
+  | None => Raise OtherError
+  end end.
+
+Definition wb_get (t : trace) (o : pv) (a : string) : comp pv :=
+  if ref_eqb o bus then
+    if String.eqb a "data_width" then Ret (YInt cdw)
+    else if String.eqb a "addr_width" then Ret (YInt caw)
+    else if String.eqb a "memory_map" then Ret bus_map
+    else Raise OtherError
+  else get_plain t o a.
+
+Definition wb_set (t : trace) (o : pv) (a : string) (v : pv) : comp unit :=
+  match o with
+  | YAttr slf port =>
+      if String.eqb a "memory_map" then
+        match port_signature t slf port with
+        | Some sg => spec_wb_set_memory_map t sg v
+        | None => Raise OtherError
+        end
+      else Ret tt
+  | _ => Ret tt
+  end.
+
+Definition wb_isinstance (t : trace) (x c : pv) : comp bool :=
+  if is_glob c "wiring.FlippedInterface" then Ret (if ref_eqb x bus then flp else false)
+  else if is_glob c "Interface" then
+    Ret (if ref_eqb x bus then (if flp then false else ifc)
+         else match x with
+              | YCon f [y] [] => if String.eqb f "flipped" then (if ref_eqb y bus then (if flp then ifc else false) else false)
+                                 else false
+              | _ => false
+              end)
+  else Raise OtherError.
+
+Definition wbW : world :=
+  {| w_call := wb_call; w_get := wb_get; w_set := wb_set; w_isinstance := wb_isinstance |}.
+End World.
+
+Definition slf : pv := YObj "WishboneCSRBridge" 0.
+Definition tr0 : trace := [EvNew "WishboneCSRBridge"].
+Definition inj (d : option Z) : pv := match d with Some z => YInt z | None => YNone end.
+Definition injname (o : option string) : pv := match o with Some s => YStr s | None => YNone end.
+
+Definition run (k : B.kcfg) (flp ifc : bool) (name : pv) : comp (pv * trace) :=
+  gen_wbcsr_WishboneCSRBridge_init (wbW (B.k_caw k) (B.k_cdw k) flp ifc) tr0 slf bus (inj (B.k_dw k)) name.
+
+(* the published geometry, read off the recorded foreign calls: the wishbone.Signature behind wb_bus, the
+   MemoryMap assigned to wb_bus.memory_map, and the single add_window(csr_bus.memory_map, name=name) made on it *)
+Definition view (name : pv) (t : trace) : comp B.geom :=
+  match port_signature t slf "wb_bus", last_set t (YAttr slf "wb_bus") "memory_map", last_set t slf "_csr_bus" with
+  | Some sg, Some mm, Some cb =>
+      if negb (ref_eqb cb bus) then Raise OtherError else
+      let* dw := getZ (kw_get "data_width" (kw_of t sg)) in
+      let* g := getZ (kw_get "granularity" (kw_of t sg)) in
+      let* aw := getZ (kw_get "addr_width" (kw_of t sg)) in
+      let* mmaw := getZ (kw_get "addr_width" (kw_of t mm)) in
+      let* mmdw := getZ (kw_get "data_width" (kw_of t mm)) in
+      match calls_on t mm with
+      | [(m, [w], [(k, nm)])] =>
+          if (if String.eqb m "add_window" then if ref_eqb w bus_map then String.eqb k "name" else false else false)
+          then
+            let* e := py_eq nm name in
+            if e then
+              Ret {| B.g_r := bit_length (dw / g - 1); B.g_wb_aw := aw; B.g_wb_dw := dw; B.g_gran := g;
+                     B.g_mm_aw := mmaw; B.g_mm_dw := mmdw;
+                     B.g_win_start := 0; B.g_win_stop := 2 ^ mmaw; B.g_win_ratio := 1 |}
+            else Raise OtherError
+          else Raise OtherError
+      | _ => Raise OtherError
+      end
+  | _, _, _ => Raise OtherError
+  end.
+
+Definition conv_exn (e : B.exn) : Res.exn :=
+  match e with B.TypeError => Res.TypeError | B.ValueError => Res.ValueError end.
+Definition conv {A} (r : B.res A) : Res.res A :=
+  match r with B.Ok a => Res.Ok a | B.Err e => Res.Err (conv_exn e) end.
+
+Ltac norm := lazy beta iota zeta delta [
+  cbind run_comp fcall fset fnew tlen w_call w_get w_set w_isinstance
+  ref_eqb kw_get last_set call_of calls_of num mknum py_is_none py_is_int py_is_str py_is_bool py_is_range py_is_dict
+  py_is_list py_is_tuple not_numbers py_arith py_neg py_invert py_cmp py_eq_opt py_eq py_truth index_of py_range
+  nums in_list py_in py_len py_iter dict_lookup dict_str py_getitem py_max py_min py_exact_log2 py_ceil_log2
+  String.eqb Ascii.eqb Bool.eqb Nat.eqb negb andb orb fst snd List.app
+  is_glob meth_recv super_init obj_is get_plain widths kw_or_none calls_on kw_of port_signature not_int_or getZ getB
+  spec_wb_signature spec_memory_map spec_wb_set_memory_map
+  spec_add_window wb_call wb_get wb_set wb_isinstance wbW bus bus_map inj injname slf tr0 run view conv conv_exn
+  gen_wbcsr_WishboneCSRBridge_init gen_wbcsr_WishboneCSRBridge_class
+  B.construct B.exact_log2 B.k_caw B.k_cdw B.k_dw ].
+
+Lemma mem_legal z : mem_z z [8; 16; 32; 64] = B.legal_w z.
+Proof. unfold B.legal_w. cbn [mem_z]. repeat (destruct (_ =? _); cbn [orb]; try reflexivity). Qed.
+
+Ltac tidy :=
+  change B.bit_length with bit_length in *;
+  try match goal with |- context [mem_z _ _] => rewrite !mem_legal end.
+Ltac leaf :=
+  first [ reflexivity
+        | repeat match goal with
+                 | H : B.legal_w ?d = true |- _ =>
+                     lazymatch goal with
+                     | _ : d = 8 \/ _ |- _ => fail
+                     | _ => assert (d = 8 \/ d = 16 \/ d = 32 \/ d = 64) by (unfold B.legal_w in H; lia)
+                     end
+                 end; exfalso; lia ].
+
+(* WishboneCSRBridge.__init__ on a csr.Interface (flipped or not) = Model.WbCsrBridge.construct: same refusals in
+   the same order with the same exception class, and on acceptance the same published geometry - for ALL widths
+   of the CSR bus, every data_width (an int or None) and every window name. *)
+Theorem tie_wbcsr_ctor : forall caw cdw dw flp name,
+  run_comp (let* '(_, t) := run {| B.k_caw := caw; B.k_cdw := cdw; B.k_dw := dw |} flp true (injname name) in
+            view (injname name) t)
+  = conv (B.construct {| B.k_caw := caw; B.k_cdw := cdw; B.k_dw := dw |}).
+Proof.
+  intros. destruct flp, dw as [d|], name as [nm|]; norm; rewrite ?String.eqb_refl; tidy; split_all; leaf.
+Qed.
+Print Assumptions tie_wbcsr_ctor.
+
+(* ... and an object that is not a csr.Interface is refused with TypeError before anything else happens *)
+Theorem tie_wbcsr_not_interface : forall caw cdw dw flp name,
+  run_comp (run {| B.k_caw := caw; B.k_cdw := cdw; B.k_dw := dw |} flp false name) = Err TypeError.
+Proof. intros. destruct flp; reflexivity. Qed.
+Print Assumptions tie_wbcsr_not_interface.
+
+End WbCsrTie.
+
+(* ================================================================ Part 4: the field actions of csr/action.py *)
+
+Module ActTie.
+Module A := Soc.Model.Actions.
+
+(* Shape.cast(shape) for the shape-like objects handled here: (width, signed).  An int n >= 0 is unsigned(n);
+   unsigned(n) / signed(n) refuse a negative (non-positive) width with TypeError; an enum class declared with
+   shape= has that shape; a range has a width this file does not compute (the parameter rw); everything else is
+   not shape-like: TypeError.  (FieldPort.Signature.__init__, csr/reg.py:50-53; amaranth/hdl/_ast.py Shape.cast) *)
+Section World.
+Variable rw : Z -> Z -> Z -> Z * bool.
+
+Definition shape_cast1 (sh : pv) : comp (Z * bool) :=
+  match sh with
+  | YInt n => Branch (n <? 0) (Raise TypeError) (Ret (n, false))
+  | YCon f [YInt n] [] =>
+      if String.eqb f "unsigned" then Branch (n <? 0) (Raise TypeError) (Ret (n, false))
+      else if String.eqb f "signed" then Branch (0 <? n) (Ret (n, true)) (Raise TypeError)
+      else Raise TypeError
+  | YRange a b c => Ret (rw a b c)
+  | _ => Raise TypeError
+  end.
+Definition shape_cast (sh : pv) : comp (Z * bool) :=
+  match sh with
+  | YCon f [_; _; _] kw =>
+      if String.eqb f "class" then
+        match kw_get "shape" kw with Some s => shape_cast1 s | None => Raise TypeError end
+      else Raise TypeError
+  | _ => shape_cast1 sh
+  end.
+
+(* dict(members) for a dict or an iterable of (name, member) pairs *)
+Fixpoint pairs (l : list pv) : option (list (pv * pv)) :=
+  match l with
+  | [] => Some []
+  | YTuple [k; v] :: l' => match pairs l' with Some r => Some ((k, v) :: r) | None => None end
+  | _ => None
+  end.
+Definition members_list (m : pv) : comp (list (pv * pv)) :=
+  match m with
+  | YDict l => Ret l
+  | YTuple l | YList l => match pairs l with Some r => Ret r | None => Raise TypeError end
+  | _ => Raise TypeError
+  end.
+
+Definition access_ok (a : pv) : bool :=
+  match a with
+  | YStr s => if String.eqb s "r" then true else if String.eqb s "w" then true else if String.eqb s "rw" then true
+              else String.eqb s "nc"
+  | _ => false
+  end.
+
+(* the arguments of FieldAction.__init__(self, shape, access, members=()) however they were passed *)
+Definition fa_args (args : list pv) (kw : list (string * pv)) : option (pv * pv * pv) :=
+  let shape := match args with s :: _ => Some s | [] => kw_get "shape" kw end in
+  let access := match args with _ :: a :: _ => Some a | _ => kw_get "access" kw end in
+  let members := match args with _ :: _ :: m :: _ => m
+                 | _ => match kw_get "members" kw with Some m => m | None => YTuple [] end end in
+  match shape, access with Some s, Some a => Some (s, a, members) | _, _ => None end.
+
+(* csr.FieldAction.__init__                                                    amaranth_soc/csr/reg.py:203-211 *)
+Definition spec_field_action (args : list pv) (kw : list (string * pv)) : comp pv :=
+  match fa_args args kw with
+  | Some (sh, ac, mem) =>
+      let* ml := members_list mem in
+      match dict_str "port" ml with
+      | Some _ => Raise ValueError
+      | None => let* _ := shape_cast sh in if access_ok ac then Ret YNone else Raise ValueError
+      end
+  | None => Raise TypeError
+  end.
+
+(* Signal(shape, init=0): the shape must be shape-like, the initial value of a plain shape an int *)
+Definition spec_signal (t : trace) (args : list pv) (kw : list (string * pv)) : comp pv :=
+  match args with
+  | [sh] =>
+      let* _ := shape_cast sh in
+      match kw_get "init" kw with
+      | None | Some (YInt _) | Some (YBool _) => Ret (YObj "Signal" (tlen t))
+      | Some _ => Raise TypeError
+      end
+  | _ => Raise OtherError
+  end.
+
+Definition act_call (t : trace) (f : pv) (args : list pv) (kw : list (string * pv)) : comp pv :=
+  if is_glob f "Signal" then spec_signal t args kw
+  else match super_init f with
+       | Some _ => spec_field_action args kw
+       | None => Raise OtherError
+       end.
+
+Definition actW : world :=
+  {| w_call := act_call; w_get := get_plain; w_set := fun _ _ _ _ => Ret tt;
+     w_isinstance := fun _ _ _ => Raise OtherError |}.
+End World.
+
+(* ---- the nine classes *)
+Inductive acls := CR | CW | CRW | CRW1C | CRW1S | CResRAW0 | CResRAWL | CResR0WA | CResR0W0.
+
+Definition kind_of (c : acls) : A.kind :=
+  match c with
+  | CR => A.KR | CW => A.KW | CRW => A.KRW | CRW1C => A.KRW1C | CRW1S => A.KRW1S
+  | CResRAW0 | CResRAWL | CResR0WA | CResR0W0 => A.KRes
+  end.
+
+Definition cls_name (c : acls) : string :=
+  match c with
+  | CR => "R" | CW => "W" | CRW => "RW" | CRW1C => "RW1C" | CRW1S => "RW1S"
+  | CResRAW0 => "ResRAW0" | CResRAWL => "ResRAWL" | CResR0WA => "ResR0WA" | CResR0W0 => "ResR0W0"
+  end.
+
+(* the generated constructor of each class (classes without storage take no init argument) *)
+Definition gen_of (c : acls) (W : world) (t : trace) (slf shape init : pv) : comp (pv * trace) :=
+  match c with
+  | CR => gen_action_R_init W t slf shape
+  | CW => gen_action_W_init W t slf shape
+  | CRW => gen_action_RW_init W t slf shape init
+  | CRW1C => gen_action_RW1C_init W t slf shape init
+  | CRW1S => gen_action_RW1S_init W t slf shape init
+  | CResRAW0 => gen_action_ResRAW0_init W t slf shape
+  | CResRAWL => gen_action_ResRAWL_init W t slf shape
+  | CResR0WA => gen_action_ResR0WA_init W t slf shape
+  | CResR0W0 => gen_action_ResR0W0_init W t slf shape
+  end.
+
+Definition run (rw : Z -> Z -> Z -> Z * bool) (c : acls) (shape init : pv) : comp (pv * trace) :=
+  gen_of c (actW rw) [EvNew (cls_name c)] (YObj (cls_name c) 0) shape init.
+
+(* ---- what the model says each kind of action is: the access mode of its port, and its members besides `port`
+   (Model/Actions.v: KR reads in_r_data and drives o_r_stb; KW drives o_w_data, o_w_stb; the storage kinds drive
+   o_data; KRW1C reads in_set, KRW1S reads in_clear; KRes has nothing) - (name, direction, shape), in the order
+   they are declared *)
+Definition access_of (k : A.kind) : string :=
+  match k with A.KR => "r" | A.KW => "w" | A.KRW | A.KRW1C | A.KRW1S => "rw" | A.KRes => "nc" end.
+Definition members_of (k : A.kind) (shape : pv) : list (string * string * pv) :=
+  match k with
+  | A.KR => [("r_data", "In", shape); ("r_stb", "Out", YInt 1)]
+  | A.KW => [("w_data", "Out", shape); ("w_stb", "Out", YInt 1)]
+  | A.KRW => [("data", "Out", shape)]
+  | A.KRW1C => [("data", "Out", shape); ("set", "In", shape)]
+  | A.KRW1S => [("clear", "In", shape); ("data", "Out", shape)]
+  | A.KRes => []
+  end%string.
+
+(* ---- what the trace says was built *)
+Fixpoint find_super (t : trace) (slf : pv) : option (list pv * list (string * pv)) :=
+  match t with
+  | [] => None
+  | EvCall f args kw _ :: t' =>
+      match super_init f with
+      | Some (_, s) => if ref_eqb s slf then Some (args, kw) else find_super t' slf
+      | None => find_super t' slf
+      end
+  | _ :: t' => find_super t' slf
+  end.
+
+Fixpoint member_descr (l : list (pv * pv)) : option (list (string * string * pv)) :=
+  match l with
+  | [] => Some []
+  | (YStr n, YCon d [sh] []) :: l' =>
+      match member_descr l' with Some r => Some ((n, d, sh) :: r) | None => None end
+  | _ => None
+  end.
+
+Record built := { b_access : pv; b_shape : pv; b_members : list (string * string * pv);
+                  b_storage : option (pv * pv) }.      (* Signal(shape, init=init) held in self._storage *)
+
+Definition aview (slf : pv) (t : trace) : comp built :=
+  match find_super t slf with
+  | Some (args, kw) =>
+      match fa_args args kw with
+      | Some (sh, ac, mem) =>
+          let* ml := members_list mem in
+          match member_descr ml with
+          | Some md =>
+              let st := match last_set t slf "_storage" with
+                        | Some sg => match call_of t sg with
+                                     | Some (_, [s], kw') => Some (s, kw_or_none "init" kw')
+                                     | _ => None
+                                     end
+                        | None => None
+                        end in
+              Ret {| b_access := ac; b_shape := sh; b_members := md; b_storage := st |}
+          | None => Raise OtherError
+          end
+      | None => Raise OtherError
+      end
+  | None => Raise OtherError
+  end.
+
+(* Signal(unsigned(w), init=i) resets to the low w bits of i (Amaranth) *)
+Definition reset_of (st : option (pv * pv)) : Z :=
+  match st with
+  | Some (YCon _ [YInt w] [], YInt i) => trunc w i
+  | Some (YInt w, YInt i) => trunc w i
+  | _ => 0
+  end.
+
+Ltac norm := lazy beta iota zeta delta [
+  cbind run_comp fcall fset fnew tlen w_call w_get w_set w_isinstance
+  ref_eqb kw_get last_set call_of calls_of num mknum py_is_none py_is_int py_is_str py_is_bool py_is_range py_is_dict
+  py_is_list py_is_tuple not_numbers py_arith py_neg py_invert py_cmp py_eq_opt py_eq py_truth index_of py_range
+  nums in_list py_in py_len py_iter dict_lookup dict_str py_getitem py_max py_min py_exact_log2 py_ceil_log2
+  String.eqb Ascii.eqb Bool.eqb Nat.eqb negb andb orb fst snd List.app
+  is_glob meth_recv super_init obj_is get_plain kw_or_none kw_of
+  shape_cast1 shape_cast pairs members_list access_ok fa_args spec_field_action spec_signal act_call actW
+  kind_of cls_name gen_of access_of members_of find_super member_descr aview run
+  b_access b_shape b_members b_storage A.has_storage
+  gen_action_R_init gen_action_W_init gen_action_RW_init gen_action_RW1C_init gen_action_RW1S_init
+  gen_action_Reserved_init gen_action_ResRAW0_init gen_action_ResRAWL_init gen_action_ResR0WA_init
+  gen_action_ResR0W0_init
+  gen_action_R_class gen_action_W_class gen_action_RW_class gen_action_RW1C_class gen_action_RW1S_class
+  gen_action_Reserved_class gen_action_ResRAW0_class gen_action_ResRAWL_class gen_action_ResR0WA_class
+  gen_action_ResR0W0_class ].
+
+Definition expected (c : acls) (shape init : pv) : built :=
+  {| b_access := YStr (access_of (kind_of c)); b_shape := shape; b_members := members_of (kind_of c) shape;
+     b_storage := if A.has_storage (kind_of c) then Some (shape, init) else None |}.
+
+(* Every action class, for every width and every integer init: the constructor succeeds and builds a port with
+   the access mode, the members (names, directions, shapes, in declaration order) and - exactly for the kinds the
+   model gives storage - the storage Signal(shape, init=init) of the model's kind; its reset value is the model's
+   init_state. *)
+Theorem tie_action_ctor : forall rw c w i,
+  0 <= w ->
+  let shape := YCon "unsigned" [YInt w] [] in
+  run_comp (let* '(o, t') := run rw c shape (YInt i) in aview o t')
+    = Ok (expected c shape (YInt i)) /\
+  reset_of (b_storage (expected c shape (YInt i))) = A.init_state {| A.c_kind := kind_of c; A.c_w := w; A.c_init := i |}.
+Proof.
+  intros rw c w i Hw shape. subst shape.
+  assert (E : (w <? 0) = false) by lia.
+  split.
+  - destruct c; norm; rewrite E; reflexivity.
+  - destruct c; reflexivity.
+Qed.
+Print Assumptions tie_action_ctor.
+
+(* the range() rule of the three actions with storage: a range shape admits exactly the initial values it
+   contains (anything else is ValueError, raised after the port was built and before the storage signal is); the
+   actions without storage take no init *)
+Theorem tie_action_range_rule : forall rw c a b s i,
+  A.has_storage (kind_of c) = true ->
+  run_comp (let* '(o, t') := run rw c (YRange a b s) (YInt i) in aview o t')
+    = if range_mem a b s i then Ok (expected c (YRange a b s) (YInt i)) else Err ValueError.
+Proof.
+  intros rw c a b s i H. destruct c; try discriminate H; norm; destruct (range_mem a b s i); reflexivity.
+Qed.
+Print Assumptions tie_action_range_rule.
+
+(* an init that is None / not a number is never accepted by an action with storage: outside a range shape it is
+   not contained (ValueError), with a plain shape Signal() refuses it (TypeError) *)
+Theorem tie_action_bad_init : forall rw c w a b s,
+  A.has_storage (kind_of c) = true -> 0 <= w ->
+  (forall init, init = YNone \/ init = YBad ->
+     run_comp (run rw c (YRange a b s) init) = Err ValueError /\
+     run_comp (run rw c (YCon "unsigned" [YInt w] []) init) = Err TypeError).
+Proof.
+  intros rw c w a b s H Hw init Hi. assert (E : (w <? 0) = false) by lia.
+  destruct c; try discriminate H; destruct Hi as [-> | ->]; split; norm; rewrite ?E; reflexivity.
+Qed.
+Print Assumptions tie_action_bad_init.
+
+(* an object that is not shape-like is refused by every class with TypeError (by csr.FieldAction.__init__) *)
+Theorem tie_action_bad_shape : forall rw c init shape,
+  shape = YNone \/ shape = YBad \/ (exists w, w < 0 /\ shape = YInt w) ->
+  run_comp (run rw c shape init) = Err TypeError.
+Proof.
+  intros rw c init shape [-> | [-> | (w & Hw & ->)]]; [| | assert (E : (w <? 0) = true) by lia];
+    destruct c; norm; rewrite ?E; reflexivity.
+Qed.
+Print Assumptions tie_action_bad_shape.
+
+End ActTie.
